@@ -8,7 +8,7 @@
    in the entry's own format.  PARTIAL: the composition of (1)-(4) for NESTED histories and for -sf mode is carried by
    the lockstep correspondence, not by a theorem. *)
 From Coq Require Import Permutation.
-From MHL Require Import Model.Commands Proofs.BaseFacts Proofs.TreeFacts Proofs.RouteFacts Proofs.SealFacts Proofs.CreateFacts Proofs.SfFacts.
+From MHL Require Import Model.Commands Proofs.BaseFacts Proofs.TreeFacts Proofs.RouteFacts Proofs.SealFacts Proofs.CreateFacts Proofs.SfFacts Proofs.PartitionFacts Proofs.NestedRecFacts.
 
 (* (0) the composed command, flat history: the new generation records exactly the tree *)
 Theorem C02_create_records_exactly_the_tree : forall Hb matches C cdig ser (t : node C) h0 req no_dh ip ifl,
@@ -90,3 +90,19 @@ Theorem C02_sf_records_exactly_the_named_files : forall Hb matches C cdig ser h0
         forall e, In e (r_entries r) -> e_digest e = digest_text Hb (e_fmt e) c)).
 Proof. exact create_sf_flat_exact. Qed.
 Print Assumptions C02_sf_records_exactly_the_named_files.
+
+(* ANY NESTING, end to end (folder mode, any formats / -n / patterns; no rename detection): whatever the run ends with,
+   every generation it writes belongs to a loaded history k, and its records sit at exactly the k-relative paths of (a) the
+   entries the traversal handed over whose deepest enclosing history is k and (b) the folders that are the roots of k's
+   child histories -- each path the partition assigns to k, and nothing else.  (`ev_adds hs e k q`: event e puts a record
+   at path q into history k; the events are the traversal of the command's folder under the effective patterns, which is
+   exactly the non-ignored entries by C02_traversal_exact.)  Composes the session partition, the commit and the read-back. *)
+Theorem C02_nested_generations_record_exactly_their_share : forall Hb matches C cdig ser h0 kids hs req no_dh ip ifl t' o,
+  load C cdig (Dir h0 kids) = inl hs -> req <> [] ->
+  create_folder Hb matches C cdig ser (Dir h0 kids) req no_dh false ip ifl = (t', o) ->
+  let spec := set_patterns (latest_patterns (lh_gens (root_hist hs))) ip (pattern_file_lines ifl) in
+  forall k doc, In (k, doc) (o_written o) ->
+    (exists h, In h hs /\ lh_root h = k) /\
+    forall q, In q (map r_path (g_records doc)) <-> exists e, In e (events matches C spec [] (Dir h0 kids)) /\ ev_adds hs e k q.
+Proof. exact create_folder_records. Qed.
+Print Assumptions C02_nested_generations_record_exactly_their_share.
